@@ -188,7 +188,7 @@ func c16Gen(t *rapid.T) c16Case {
 			}
 			return rt
 		}
-		switch rk := rapid.SampledFrom([]string{"redirect", "", "prehold-redirect", "", "", ""}).Draw(t, "redirect_op"); rk {
+		switch rk := rapid.SampledFrom([]string{"redirect", "", "prehold-redirect", "", "cancel-in-config", ""}).Draw(t, "redirect_op"); rk {
 		case "redirect":
 			// one request whose PreConnect subscriber re-targets or denies it
 			st.Op = "redirect"
@@ -197,6 +197,16 @@ func c16Gen(t *rapid.T) c16Case {
 			st.RT1 = genRT("rt1", st.T1)
 			c.Steps = append(c.Steps, st)
 			continue
+		case "cancel-in-config":
+			if cfgPhase {
+				// the caller gives up while the backend sits in the configuration phase; another request follows
+				st.Op = "overlap"
+				st.S1 = c15Script{Thr: rapid.SampledFrom([]int{-1, -1, 0, 256}).Draw(t, "thr"), HoldAt: c15StConfig}
+				st.Third = rapid.IntRange(0, 2).Draw(t, "third") == 0
+				st.Finish = "cancel"
+				c.Steps = append(c.Steps, st)
+				continue
+			}
 		case "prehold-redirect":
 			// two requests parked in their subscribers; at least the one released last is re-targeted / denied
 			st.Op = "prehold"
@@ -225,6 +235,11 @@ func c16Gen(t *rapid.T) c16Case {
 			st.S1 = c16GenScript(t, cfgPhase, true)
 			st.Third = rapid.IntRange(0, 2).Draw(t, "third") == 0
 			st.Finish = rapid.SampledFrom([]string{"release", "release", "cancel"}).Draw(t, "finish")
+			if cfgPhase && rapid.IntRange(0, 3).Draw(t, "cancel_in_config") == 0 {
+				// the caller gives up while the backend sits in the configuration phase
+				st.S1 = c15Script{Thr: st.S1.Thr, HoldAt: c15StConfig}
+				st.Finish = "cancel"
+			}
 		case k < 77:
 			st.Op = "prehold"
 			st.S1 = c15Script{Thr: -1}
